@@ -172,12 +172,44 @@ func ruleWho(entries []whoEntry) func(c *Ctx) {
 					}
 				}
 			}
+			if len(e.Readers) > 0 {
+				readers := map[string]string{}
+				for nm, why := range e.Readers {
+					readers[c.P.FnNameOf(nm)] = why
+				}
+				for _, aa := range c.P.addrArgs[f] {
+					if !aa.Reads {
+						continue
+					}
+					c.inst(1)
+					g := aa.Call.Parent()
+					owner, ok := c.P.ownedBy(g, func(nm string) bool { _, has := readers[nm]; return has })
+					if ok {
+						c.ok(e.Field, "read by "+owner, c.P.InstrPos(aa.Call), readers[owner]+" (through its address handed to "+calleeName(aa.Call.Common())+")")
+					} else {
+						c.viol(e.Field, "read by "+fnName(g), c.P.InstrPos(aa.Call), fmt.Sprintf("%s hands the address of %s to %s, which reads it, and is not a listed reader", fnName(g), e.Field, calleeName(aa.Call.Common())))
+					}
+				}
+			}
 			// the table names functions as they were; a renamed writer keeps its entry
 			resolved := map[string]string{}
 			for nm, why := range e.Writers {
 				resolved[c.P.FnNameOf(nm)] = why
 			}
 			e.Writers = resolved
+			for _, aa := range c.P.addrArgs[f] {
+				if !aa.Writes {
+					continue
+				}
+				c.inst(1)
+				g := aa.Call.Parent()
+				owner, ok := c.P.ownedBy(g, func(nm string) bool { _, has := e.Writers[nm]; return has })
+				if ok {
+					c.ok(e.Field, "written by "+owner, c.P.InstrPos(aa.Call), e.Writers[owner]+" (through its address handed to "+calleeName(aa.Call.Common())+")")
+				} else {
+					c.viol(e.Field, "written by "+fnName(g), c.P.InstrPos(aa.Call), fmt.Sprintf("%s hands the address of %s to %s, which writes it, and is not a listed writer (listed: %s)", fnName(g), e.Field, calleeName(aa.Call.Common()), strings.Join(sortedKeys(boolMap(e.Writers)), ", ")))
+				}
+			}
 			ws := c.P.writersOf(f)
 			var names []string
 			for n := range ws {
